@@ -39,5 +39,6 @@ def run(chk, ix, tier):
     rules_config.check_parser_is_fresh(chk, ix)
     rules_config.check_loglevel_names(chk, ix)
     rules_config.check_typed_getters_concrete(chk, ix)
-    for r, n in (("Z1", 1), ("Z2", 6), ("Z4", 16), ("Z5", 4), ("Z6", 3), ("Z7", 2), ("Z9", 14), ("Z8", 10), ("Z10", 1), ("Z11", 1), ("Z12", 11)):
+    rules_config.check_command_args_unchanged(chk, ix)
+    for r, n in (("Z1", 1), ("Z2", 6), ("Z4", 16), ("Z5", 4), ("Z6", 3), ("Z7", 2), ("Z9", 14), ("Z8", 10), ("Z10", 1), ("Z11", 1), ("Z12", 11), ("Z13", 6)):
         chk.require_instances(r, n)
